@@ -39,6 +39,9 @@ def compositions(total, parts):
 def freq_lattice4(tier):
     pts = [tuple(c / 10.0 for c in comp) for comp in compositions(10, 4)]
     assert len(pts) == 84
+    if tier == "thorough":  # the twentieths lattice contains the tenths lattice
+        pts = [tuple(c / 20.0 for c in comp) for comp in compositions(20, 4)]
+        assert len(pts) == 969
     pts += [(0.001, 0.002, 0.003, 0.994), (0.97, 0.01, 0.01, 0.01), (0.4989, 0.001, 0.4991, 0.001)]
     if tier == "quick":
         pts = pts[::4] + pts[-3:]
@@ -92,7 +95,7 @@ def cases(tier, seed):
             out.append({"model": "HKY", "kappa": jitter([kap], seed, k)[0],
                         "pi": renorm(jitter(pi, seed, k))})
     # GTR
-    rl = [1e-4, 1.0, 1e4]
+    rl = [1e-4, 1.0, 1e4] if tier == "quick" else [1e-4, 1e-2, 1.0, 1e4]
     rate_pts = list(itertools.product(rl, repeat=6))
     if tier == "quick":
         rate_pts = rate_pts[::9]
